@@ -131,11 +131,45 @@ def gen_injections(rng, desc, rows):
     for _ in range(rng.randint(1, 3)):
         c = rng.pick(cands)
         pos = rng.randrange(len(rows))
-        if c["stype"] == "categorical":
+        near = neighbour_value(rng, desc, c, rows[pos]) if rng.chance(0.6) else None
+        if near is not None:
+            out.append({"col": c["name"], "pos": pos, "kind": near[0], "value": near[1]})
+        elif c["stype"] == "categorical":
             out.append({"col": c["name"], "pos": pos, "kind": "unseen"})
         else:
             out.append({"col": c["name"], "pos": pos, "kind": rng.pick(["only_unseen", "mixed", "mixed", "two_unseen"])})
     return out
+
+
+def neighbour_value(rng, desc, c, src_row):
+    """An unseen value ADJACENT to the seen ones: for a string category its case / whitespace variants; for an integer
+    category a non-integral float whose truncation or rounding is a category (or +/-inf); for a multicategorical
+    string column the cell string of a SIBLING column with the same separator (tokens fitted there, unseen here)."""
+    seen = [v for v in c["cells"] if v is not None]
+    if c["stype"] == "categorical":
+        if not seen:
+            return None
+        v = rng.pick(seen)
+        if isinstance(v, int):
+            return ("nonintegral", rng.pick([v + 0.5, v + 0.9, v - 0.5, v + 0.1, "inf", "-inf"]))
+        for w in rng.sample([v.upper(), v.lower(), v.swapcase(), v + " ", " " + v, v + "\t", v[:-1], v + v[-1:]], 8):
+            if w != "" and w not in seen:
+                return ("adjacent", w)
+        return None
+    if c["sep"] is None:
+        return None
+    sibs = [o for o in desc["cols"] if o["stype"] == "multicategorical" and o["name"] != c["name"]
+            and o["sep"] == c["sep"] and o["name"] != desc["target"]]
+    rng.shuffle(sibs)
+    mine = set()
+    for cell in seen:
+        mine |= G.tokens_of(cell, c["sep"])
+    for o in sibs:
+        for r in [src_row] + rng.sample(range(desc["n"]), desc["n"]):
+            cell = o["cells"][r]
+            if isinstance(cell, str) and (G.tokens_of(cell, o["sep"]) - mine):
+                return ("sibling", cell)            # the identical cell string occurs in the sibling column
+    return None
 
 
 def gen_case(rng, tier):
@@ -146,7 +180,7 @@ def gen_case(rng, tier):
                        ["text_embedded", "image_embedded", "numerical", "categorical"],
                        ["categorical", "multicategorical", "timestamp", "sequence_numerical", "text_tokenized"],
                        ["text_embedded", "categorical", "multicategorical"]])
-    desc = G.gen_frame(rng, stypes=st, target_missing=0.7)
+    desc = gen_vocab_frame(rng) if rng.chance(0.22) else G.gen_frame(rng, stypes=st, target_missing=0.7)
     case = {"frame": desc, "calls": gen_calls(rng, desc, rng.randint(1, 4)), "supplied": rng.chance(0.5)}
     case["materialize_args"] = {"device": rng.pick(["default", "default", "pos_none", "kw_str", "kw_device"]),
                                 "col_stats": rng.pick(["keyword", "positional"])}
@@ -159,6 +193,39 @@ def gen_case(rng, tier):
             case["others"].append({"frame": od, "calls": gen_calls(rng, od, rng.randint(1, 2), malformed=False),
                                    "when": rng.pick(["before", "before", "mid"])})
     return case
+
+
+def gen_vocab_frame(rng):
+    """Sibling columns with overlapping vocabularies: two multicategorical string columns with one separator whose
+    cell strings coincide although their category sets differ, a string category column with case / whitespace
+    neighbours, an integer category column."""
+    n = rng.randint(3, 7)
+    sep = rng.pick(["|", ","])
+    j = lambda toks: sep.join(toks)        # noqa: E731
+    pool1 = [j(["a"]), j(["a", "b"]), j(["b"]), "", j(["b", "a"])]
+    pool2 = [j(["b", "c"]), j(["c"]), j(["b"]), j(["c", "d"]), j(["b", "c", "d"]), j(["a", "b"])]
+
+    def col(name, st, cells, **kw):
+        d = {"name": name, "stype": st, "dtype": "object", "sep": None, "fmt": None, "width": None, "cells": cells,
+             "nan_kind": "none"}
+        d.update(kw)
+        return d
+    mp = rng.pick([0.0, 0.2])
+    cols = [col("m1", "multicategorical", [None if rng.chance(mp) else rng.pick(pool1) for _ in range(n)], sep=sep,
+                dtype=rng.pick(["object", "str"])),
+            col("m2", "multicategorical", [None if rng.chance(mp) else rng.pick(pool2) for _ in range(n)], sep=sep,
+                dtype=rng.pick(["object", "str"])),
+            col("c1", "categorical", [None if rng.chance(mp) else rng.pick(["a", "b", "B", "a b", "ab"]) for _ in range(n)],
+                dtype=rng.pick(["object", "str"])),
+            col("k", "categorical", [None if rng.chance(mp) else rng.pick([1, 2, 3, 10]) for _ in range(n)]),
+            col("x", "numerical", [float(i) for i in range(n)], dtype="float")]
+    if rng.chance(0.5):
+        cols.append(col("m3", "multicategorical", [rng.pick(pool2 + pool1) for _ in range(n)], sep=sep))
+    keep = [c for c in cols if c["name"] in ("m1", "m2") or rng.chance(0.7)]
+    order = [c["name"] for c in keep]
+    rng.shuffle(order)
+    return {"n": n, "index": rng.pick(["range", "offset", "dup"]), "cols": keep, "target": None, "col_order": order,
+            "vocab": True}
 
 
 def gen_calls(rng, desc, k, malformed=True):
@@ -202,7 +269,7 @@ def sibling_frame(rng, desc):
 
 
 def generate(rng, tier):
-    n = 230 if tier == "quick" else 6000
+    n = 200 if tier == "quick" else 6000
     return [gen_case(rng, tier) for _ in range(n)]
 
 
@@ -225,7 +292,8 @@ def selected_cells(case, call, col):
     cells = [col["cells"][r] for r in call["rows"]]
     for inj in call["inject"]:
         if inj["col"] == col["name"]:
-            cells[inj["pos"]] = unseen_value(col, inj["kind"], col["cells"][call["rows"][inj["pos"]]])
+            cells[inj["pos"]] = inj["value"] if "value" in inj else \
+                unseen_value(col, inj["kind"], col["cells"][call["rows"][inj["pos"]]])
     return cells
 
 
@@ -250,7 +318,11 @@ def build_call_df(case, call, df):
     by = {c["name"]: c for c in desc["cols"]}
     for name in {i["col"] for i in call["inject"]}:
         col = by[name]
-        ser = G.build_series(dict(col, cells=selected_cells(case, call, col)))
+        cells = selected_cells(case, call, col)
+        if any(i["col"] == name and i["kind"] == "nonintegral" for i in call["inject"]):
+            ser = pd.Series([np.nan if v is None else float(v) for v in cells], dtype=float)
+        else:
+            ser = G.build_series(dict(col, cells=cells))
         ser.index = df2.index
         df2[name] = ser
     if call["drop_target"]:
@@ -698,6 +770,12 @@ def stats(cases, obss):
             d["malformed_calls"] = d.get("malformed_calls", 0) + int(bool(call.get("drop_feature")))
             for i in call["inject"]:
                 d["injection_kinds"][i["kind"]] = d["injection_kinds"].get(i["kind"], 0) + 1
+                if i["kind"] == "sibling":
+                    # the identical cell string also sits in the sibling column of the converted frame
+                    same = any(i["value"] == selected_cells(c, call, o)[p] for o in desc["cols"]
+                               if o["name"] != i["col"] and o["stype"] == "multicategorical"
+                               for p in range(len(call["rows"])))
+                    d["sibling_string_in_same_frame"] = d.get("sibling_string_in_same_frame", 0) + int(same)
             if not rec["ok"]:
                 d["calls_raised"] += 1
     return d
@@ -734,7 +812,9 @@ def sanity(cases, obss):
     for k in ("all", "single", "repeat", "reorder", "multiset", "slice", "missing", "unlabeled"):
         if d["call_kinds"].get(k, 0) == 0:
             probs.append(f"row selection kind {k} never drawn")
-    for k in ("unseen", "only_unseen", "mixed", "two_unseen"):
+    if d.get("sibling_string_in_same_frame", 0) == 0:
+        probs.append("no unseen-by-sibling token whose cell string also occurs in the sibling column of the same frame")
+    for k in ("unseen", "only_unseen", "mixed", "two_unseen", "sibling", "adjacent", "nonintegral"):
         if d["injection_kinds"].get(k, 0) == 0:
             probs.append(f"unseen-value kind {k} never drawn")
     for k in ("frames_with_embedding_merge", "supplied", "calls_without_target", "calls_with_unseen"):
@@ -765,12 +845,22 @@ def label_ids(desc):
     return [ids.setdefault(repr(v), len(ids)) for v in lab]
 
 
+def pv(v):
+    """a raw category value as a pval; a non-integral float (or +/-inf) has no int / str form: it is shipped as a
+    string no category can equal (categories of such a column are ints)"""
+    if isinstance(v, float):
+        return M.ppval(int(v)) if v == int(v) and abs(v) < 2 ** 60 else M.ppval("float:" + repr(v))
+    if isinstance(v, str) and v in ("inf", "-inf"):
+        return M.ppval("float:" + v)
+    return M.ppval(v)
+
+
 def coq_fcol(col, cells, parsed, rows):
     st = col["stype"]
     if st == "numerical":
         return "FNum " + M.plist(cells, lambda c: M.popt(c, M.pnum))
     if st == "categorical":
-        return "FCat " + M.plist(cells, lambda c: M.popt(c, M.ppval))
+        return "FCat " + M.plist(cells, lambda c: M.popt(c, pv))
     if st == "multicategorical":
         def cell(c):
             if c is None:
